@@ -17,7 +17,7 @@ use std::{
 
 use serde::{Deserialize, Serialize};
 use slotmap::SlotMap;
-use string_interner::{StringInterner, backend::StringBackend};
+use string_interner::{StringInterner, backend::BucketBackend};
 
 use crate::{
     ast::Expr,
@@ -32,7 +32,7 @@ slotmap::new_key_type! {
 
 /// Global storages shared during compilation stages.
 pub struct SessionGlobals {
-    pub symbol_interner: StringInterner<StringBackend<usize>>,
+    pub symbol_interner: StringInterner<BucketBackend<usize>>,
     pub expr_storage: SlotMap<ExprKey, Expr>,
     pub type_storage: SlotMap<TypeKey, Type>,
     pub loc_storage: BTreeMap<NodeId, Location>,
